@@ -240,9 +240,21 @@ def make_declaration_grammar(g: Grammar, gx):
     g.nt("struct-declaration", "_parse_struct_declaration", opaque=lambda gx, m: [OP(m)])
     g.prod("struct-declaration", [N("specifier-qualifier-list"), N("struct-declarator-list"), T("SEMI")],
            build=lambda v, gx: mk_declarations(A, gx, v[0], v[1]), label="struct-declaration: specifier-qualifier-list struct-declarator-list ;")
-    g.prod("struct-declaration", [N("specifier-qualifier-list"), T("SEMI")],
+    # C11 6.7.2.1p13: a member declaration without declarator is allowed only for an anonymous struct/union
+    def struct_only_spec(m):
+        sp = new_spec()
+        sp["type"] = [A.Struct(None, [OP(m)], mcoord(m))]
+        return sp
+    g.nt("anon-member-specifiers", opaque=lambda gx, m: struct_only_spec(m))
+    g.accepts["_parse_specifier_qualifier_list"].add("anon-member-specifiers")
+    g.prod("anon-member-specifiers", [Star(N("spec-qual-nontype"), max=1), N("struct-or-union-specifier"), Star(N("spec-qual-nontype"), max=1)],
+           build=lambda v, gx: collect_spec(v[0] + [("type", v[1])] + v[2]), label="specifier-qualifier-list of an anonymous member")
+    g.prod("struct-declaration", [N("anon-member-specifiers"), T("SEMI")],
            build=lambda v, gx: mk_declarations(A, gx, v[0], [dict(decl=v[0]["type"][0], init=None, bitsize=None)]),
-           label="struct-declaration: specifier-qualifier-list ;  (C11 anonymous struct/union member)", note="anonymous")
+           label="struct-declaration: struct-or-union-specifier ;  (C11 anonymous struct/union member)", note="anonymous")
+    # not valid C in general (constraint 6.7.2.1p2), but the parser must still not fail with anything but ParseError
+    g.prod("struct-declaration", [N("specifier-qualifier-list"), T("SEMI")], build=None,
+           label="struct-declaration: specifier-qualifier-list ;  [superset of C: any specifier list without declarator]", note="superset")
     # its terminating ';' is the stray-semicolon item below (same language; no node for the semicolon)
     g.prod("struct-declaration", [N("static-assert")], build=lambda v, gx: v[0],
            label="struct-declaration: static_assert-declaration (C11 6.7.2.1)")
